@@ -40,13 +40,55 @@ def parseOp? : List String → Option Op
   | ["delsub", i] => i.toNat?.map .delSub
   | _ => none
 
+def showEv : Ev → String
+  | .sent id acks => s!"S{id}:{showTaken acks}"
+  | .publish => "P"
+  | .failed st => s!"F{st}"
+
+def showEvs (evs : List Ev) : String := "[" ++ ",".intercalate (evs.map showEv) ++ "]"
+
+def parseKind? : List String → Option FailKind
+  | ["timeout"] => some .timeout
+  | ["closed"] => some .closed
+  | ["wrongtype"] => some .wrongType
+  | ["fault", st] => st.toNat?.map .fault
+  | _ => none
+
 def dstep (s : State) (toks : List String) : State × String :=
   match toks with
   | ["reset"] => (init, "ok " ++ showState init)
+  | ["reset", n] =>
+    match n.toNat? with
+    | some n => let s' := { init with maxPublish := n }; (s', "ok " ++ showState s')
+    | none => (s, "bad-op")
+  | ["trigger"] =>
+    let (evs, s') := loopTrigger s
+    (s', s!"ok ev={showEvs evs} " ++ showState s')
+  | ["lcomplete", i, sub, seq, more, kind] =>
+    let ka : Option Bool :=
+      if kind = "data" then some false else if kind = "kanone" ∨ kind = "kaempty" then some true else none
+    match i.toNat?, sub.toNat?, seq.toNat?, parseBool? more, ka with
+    | some i, some a, some b, some m, some k =>
+      match loopComplete s i a b m k with
+      | some (evs, s') => (s', s!"ok ev={showEvs evs} " ++ showState s')
+      | none => (s, "bad-op")
+    | _, _, _, _, _ => (s, "bad-op")
+  | "lfail" :: i :: rest =>
+    match i.toNat?, parseKind? rest with
+    | some i, some k =>
+      match loopFail s i k with
+      | some (evs, s') => (s', s!"ok ev={showEvs evs} " ++ showState s')
+      | none => (s, "bad-op")
+    | _, _ => (s, "bad-op")
   | _ =>
     match parseOp? toks with
     | none => (s, "bad-op")
     | some op =>
+      let viaLoop : Bool := match op with
+        | .complete id _ _ _ _ => (findLoopFlight s id).isSome
+        | .fail id _ => (findLoopFlight s id).isSome
+        | _ => false
+      if viaLoop then (s, "bad-op") else
       match step s op with
       | (.badOp, s') => (s', "bad-op")
       | (o, s') => (s', showOut o ++ " " ++ showState s')
